@@ -62,7 +62,10 @@ def string(rng, maxlen=6, alphabet=None):
 
 
 WORDS = ['', 'a', 'b', 'ab', 'abc', 'Abc', 'ABC', 'get', 'Get', 'post', 'Max', 'max', 'admin', 'x', '1', '10',
-         'books:1', 'Жук', 'жук', 'café', 'CAFÉ', 'a b', 'a\n', '%', '_', 'a%', 'a_c', 'a+b']
+         'books:1', 'Жук', 'жук', 'café', 'CAFÉ', 'a b', 'a\n', '%', '_', 'a%', 'a_c', 'a+b',
+         # letters whose case FOLDING differs from their lower case (ß -> ss, ſ -> s, ς -> σ): lower() is what is compared
+         'ß', 'straße', 'Maß', 'ſt', 'ς']
+assert all(model_safe(w) for w in WORDS)
 
 
 def word(rng):
